@@ -17,7 +17,7 @@ from props.refprops import all_findings, all_gates
 
 PID = "C11"
 THEOREMS = {"CbProps.C11": ["CbProps.C11." + t for t in ["keyL_injective", "cache_transparent", "second_use_hits"]],
-            "CbOblig.C11": ["CbOblig.C11.key_format_is_modelled", "CbOblig.C11.clone_copies_every_child"]}
+            "CbOblig.C11": ["CbOblig.C11.key_format_is_modelled", "CbOblig.C11.clone_copies_every_child", "CbOblig.C11.subst_visits_every_child"]}
 
 TYWORDS = ["tiny", "short", "int", "long", "char", "bool"]
 FUNC_RE = re.compile(r"^([a-z][\w ]*?) (\w+)\(([^\n]*)\) \{\n(.*?)^\}\n", re.S | re.M)
@@ -44,31 +44,37 @@ def generify(source, r, max_funcs=2):
             cands.append((m, header_types))
     if not cands:
         return None
-    r.shuffle(cands) if hasattr(r, "shuffle") else None
+    for i in range(len(cands) - 1, 0, -1):
+        j = r.below(i + 1)
+        cands[i], cands[j] = cands[j], cands[i]
     chosen = cands[:max_funcs] if r.chance(40) else cands[:1]
     out = source
-    desc = []
+    plan = []
     for m, hts in chosen:
-        name = m.group(2)
-        text = m.group(0)
+        name, text = m.group(2), m.group(0)
         xs = [r.choice(hts)]
         if len(hts) > 1 and r.chance(40):
-            ys = [t for t in hts if t != xs[0]]
-            xs.append(r.choice(ys))
-        new = text
+            xs.append(r.choice([t for t in hts if t != xs[0]]))
         params = ["T", "U"][:len(xs)]
+        out = out.replace(text, "\0%s\0" % name)          # while the text still matches the original
+        plan.append((name, text, xs, params))
+    desc = []
+    news = {}
+    for name, text, xs, params in plan:
+        new = text
         for x, p in zip(xs, params):
             new = outside_strings_sub(new, x, p)
-        # header: name(...) -> name<T, U>(...)
-        new = re.sub(r"\b%s\(" % name, "%s<%s>(" % (name, ", ".join(params)), new, count=1)
-        out = out.replace(text, "\0%s\0" % name)
-        # call sites (also inside interpolated strings and inside the function itself)
-        out = re.sub(r"\b%s\(" % name, "%s<%s>(" % (name, ", ".join(xs)), out)
-        body_calls = re.sub(r"\b%s\(" % name, "%s<%s>(" % (name, ", ".join(params)), new[new.index("{"):])
-        new = new[:new.index("{")] + body_calls
-        out = out.replace("\0%s\0" % name, new)
+        brace = new.index("{")
+        head, body = new[:brace], new[brace:]
+        head = re.sub(r"\b%s\(" % name, "%s<%s>(" % (name, ", ".join(params)), head, count=1)
+        body = re.sub(r"\b%s\(" % name, "%s<%s>(" % (name, ", ".join(params)), body)      # recursion
+        news[name] = head + body
         desc.append("%s<%s> at <%s>" % (name, ",".join(params), ",".join(xs)))
-    # later rewrites may have touched earlier generic definitions' headers: f<T>( must stay f<T>(
+    for name in news:
+        out = out.replace("\0%s\0" % name, news[name])
+    # call sites everywhere else (also inside interpolated strings and inside other generic bodies)
+    for name, text, xs, params in plan:
+        out = re.sub(r"\b%s\(" % name, "%s<%s>(" % (name, ", ".join(xs)), out)
     return out, desc
 
 
@@ -239,7 +245,7 @@ def main(a):
 
     def report(suite, what, replay, cells=()):
         if os.environ.get("CB_VERIF_CENSUS"):
-            census.setdefault((suite,) + tuple(sorted(cells)), []).append(what)
+            census.setdefault((suite,) + tuple(sorted(set(c for c in cells if not c.startswith("ty:")))), []).append(what)
             return
         for c in cells:
             if c in known_tpl:
@@ -344,7 +350,7 @@ def feature_cells(gsrc):
         b = m.group(1)
         for name, pat in (("for", r"\bfor \("), ("ternary", r" \? "), ("while", r"\bwhile \("), ("index", r"\w\["), ("incdec", r"\+\+|--"),
                           ("static", r"\bstatic\b"), ("interp", r'"[^"\n]*\{'), ("compound", r" [-+*/%&|^]= "), ("else", r"\belse\b"),
-                          ("cast", r"\([TU]\)")):
+                          ("cast", r"\([TU]\)"), ("shr", r">>"), ("tarray", r"\b[TU]\[")):
             if re.search(pat, b):
                 cells.append("body:" + name)
     return sorted(set(cells))
